@@ -4,7 +4,9 @@ EXTENDS PrivRetry, Json
 
 CONSTANT GenLen
 
-Terminal == Len(hist) = GenLen \/ ~ENABLED Next
+\* one witness per distinct quiet state (nothing in flight, no attempt scheduled) and per behaviour of full length
+Quiet == net = {} /\ (\A t \in Tx : loop[t].st = "off") /\ (\E t \in Tx : dag[t])
+Terminal == Len(hist) = GenLen \/ Quiet
 Emit == (Hist /\ Terminal) => PrintT(ToJson([steps |-> hist]))
 \* one witness per distinct state in which the code departs from the statement
 Bad == \/ ~NoStuckJob \/ ~WithinBudget
